@@ -45,7 +45,7 @@ def main():
         patches = [p for p in patches if os.path.basename(p)[:-5] in a.only.split(",")]
     props = a.props.split(",")
     bad = 0
-    with ThreadPoolExecutor(max_workers=int(os.environ.get("JOBS", "8"))) as ex:
+    with ThreadPoolExecutor(max_workers=int(os.environ.get("JOBS", "16"))) as ex:
         for name, out in ex.map(one, [(p, props, a.v) for p in patches]):
             if out:
                 bad += 1
